@@ -14,7 +14,10 @@ SUPPORTED = ["application/sparql-results+json", "application/sparql-results+xml"
 SYN = ["application/json", "text/json", "application/xml", "text/xml", "text/csv"]
 OTHER = ["text/html", "*/*", "application/ld+json", "text/plain", "image/png", "application/sparql-results+tsv"]
 # identifiers; the last five contain non-ASCII white space, which is legal IRI text (ucschar) and valid for rdflib
-IDENT = ["1", "0000001", "abc", "a_b", "x-y", "A.b", "", "12/34", "é", "10\u00a0mg", "山田\u3000太郎", "a\u2028b", "x\u0085y", "t\u2003"]
+IDENT = ["1", "0000001", "abc", "a_b", "x-y", "A.b", "", "12/34", "é", "10\u00a0mg", "山田\u3000太郎", "a\u2028b", "x\u0085y", "t\u2003",
+         # words of the SPARQL language are ordinary text inside an IRI
+         "Service", "a/service/b", "select", "VALUES", "x/where/y", "union", "filter-1", "GRAPH", "bind.2", "optional"]
+KEYWORD_SEGMENTS = ["service/", "select/", "values/", "where/", "graph/", "filter/", "union#", "bind_"]
 
 
 def gen_header(rng):
@@ -159,7 +162,7 @@ class C18(Plugin):
             nrec = rng.randint(1, 4)
             recs = []
             for i in range(nrec):
-                base = f"http://ex{i}.org/" + rng.choice(["", "a/", "b#", "c_"])
+                base = f"http://ex{i}.org/" + rng.choice(["", "a/", "b#", "c_"] + ([rng.choice(KEYWORD_SEGMENTS)] if rng.random() < 0.5 else []))
                 usyn = []
                 for j in range(rng.choice([0, 1, 1, 2])):
                     bad = rng.random() < 0.2
